@@ -335,11 +335,11 @@ func genC11(g *GenCtx) {
 			g.Op("read u 9 64")
 		})
 	}
-	// the largest messages a peer can send (transport.MaxPlaintextSize = 65503 bytes): hop-go's own senders
+	// the largest messages a peer can send (transport.MaxPlaintextSize = 64503 bytes): hop-go's own senders
 	// stop at 12+32768, the receive buffer must not
 	fixed(func(x *gen, v *tube) {
 		x.openRemote(false, 9, 4)
-		for _, n := range []int{32768, 32769, 40000, 65491} {
+		for _, n := range []int{32768, 32769, 40000, 64491} {
 			x.raw(muxh.Frame(9, "-", 0, uint32(n), g.R.Bytes(n)))
 			g.Op("read u 9 64")
 			x.raw(muxh.Frame(77, "L", 1, 1, g.R.Bytes(n)))
